@@ -247,3 +247,29 @@ package ratelimiter
 //@   let r := asref(result, *rateLimiter)
 //@   ensures [C05.build.kind] typeis(result, *rateLimiter) && fresh(r) && r.config == c && r.stats != nil && (c.interval != 0 ==> typeis(r.stats, *smoothStats) && asref(r.stats, *smoothStats).config == c && asref(r.stats, *smoothStats).nextFreePermitTime == 0 && asref(r.stats, *smoothStats).stopwatch != nil) && (c.interval == 0 ==> typeis(r.stats, *burstyStats) && asref(r.stats, *burstyStats).config == c && asref(r.stats, *burstyStats).availablePermits == c.periodPermits && asref(r.stats, *burstyStats).currentPeriod == 0 && asref(r.stats, *burstyStats).stopwatch != nil)
 //@   modifies nothing
+
+// thin public wrappers
+//@ func (*rateLimiter).AcquirePermit
+//@   requires r != nil && r.stats != nil
+//@   oldlet nd := 0
+//@   oldlet dp := 0
+//@   oncall (*rateLimiter).AcquirePermits: nd := nd + 1; dp := callarg_2; dc := callarg_1; dres := callresult
+//@   ensures [C05.api.acquire_permit_is_one] nd == 1 && dp == 1 && dc == ctx && result == dres
+//@   havoc
+//@   modifies *
+//@ func (*rateLimiter).AcquirePermitWithMaxWait
+//@   requires r != nil && r.stats != nil
+//@   oldlet nd := 0
+//@   oldlet dp := 0
+//@   oncall (*rateLimiter).acquirePermitsWithMaxWait: nd := nd + 1; dc := callarg_1; dx := callarg_2; dp := callarg_3; dw := callarg_4; dres := callresult
+//@   ensures [C05.api.acquire_with_max_wait_is_one] nd == 1 && dp == 1 && dc == ctx && dx == nil && dw == maxWaitTime && result == dres
+//@   havoc
+//@   modifies *
+//@ func (*rateLimiter).AcquirePermitsWithMaxWait
+//@   requires r != nil && r.stats != nil && requestedPermits <= 2147483648
+//@   oldlet nd := 0
+//@   oldlet dp := 0
+//@   oncall (*rateLimiter).acquirePermitsWithMaxWait: nd := nd + 1; dc := callarg_1; dx := callarg_2; dp := callarg_3; dw := callarg_4; dres := callresult
+//@   ensures [C05.api.acquire_permits_with_max_wait] nd == 1 && dp == requestedPermits && dc == ctx && dx == nil && dw == maxWaitTime && result == dres
+//@   havoc
+//@   modifies *
